@@ -57,6 +57,11 @@ def scenarios():
     sc.append({"name": "seq-chain-one-cpu-nested", "tasks": [T("x0", "run_experiment"), T("x1", deps=["x0"]), T("x2", "run_experiment", deps=["x1"])],
                "pre": [], "inv": {"target": "//:x2", "jobs": None, "strategy": "blocked-fifo", "seed": 18, "proc": {"one_cpu": True, "cpu_index": 3},
                                   "outer_env": {"COND_SLOT": "2", "COND_NAME": "outer", "COND_OUT": "/outer/o.task", "COND_DEPS": "", "FORCE_COLOR": "1"}}})
+    # COND files that include() other files (whose evaluation takes a few statements)
+    inc = "import math\nBASE = 2\nVALS = []\nfor i in range(4):\n    VALS.append(BASE * i)\nRUN = 'true'\n"
+    sc.append({"name": "includes-seq", "tasks": [T("i0", "run_experiment"), T("i1", deps=["i0"], pkg="a"), T("i2", "run_experiment", deps=["//a:i1"])],
+               "extra_files": {"defs.cond": inc, "a/local.cond": inc}, "cond_prefix": {"": "include('//defs.cond')\ninclude('defs.cond')\n", "a": "include('local.cond')\ninclude('//defs.cond')\n"},
+               "pre": [], "inv": {"target": "//:i2", "jobs": None, "strategy": "blocked-fifo", "seed": 19}})
     sc.append({"name": "stdout-gone-j3", "tasks": fan + [gen.mk_task("", "top", "group", [t["id"] for t in fan])], "break_stdout": True,
                "pre": [], "inv": {"target": "//:top", "jobs": 3, "strategy": "blocked-random", "seed": 13}})
     sc.append({"name": "par-fan-j3-exits-while-aborting", "tasks": fan + [gen.mk_task("", "top", "combine", [t["id"] for t in fan])], "exits_after": 0.6,
@@ -78,7 +83,7 @@ def _argv(inv):
 
 
 def _setup(scn, root):
-    gen.write_project(root, scn["tasks"])
+    gen.write_project(root, scn["tasks"], extra_files=scn.get("extra_files"), cond_prefix=scn.get("cond_prefix"))
     for inv in scn["pre"]:
         kind, res = common.run_forked(schedsim.run_invocation, {"root": root, "argv": _argv(inv), "script": inv.get("script", {}), "strategy": inv["strategy"], "seed": inv["seed"], "outer_env": inv.get("outer_env"), "proc": inv.get("proc")}, 60)
         if kind != "ok" or res["result"].get("exit") != 0:
